@@ -32,3 +32,4 @@ pub(crate) mod stubs {
 
 verif_mod!(c15, "c15.rs");
 verif_mod!(c25, "c25.rs");
+verif_mod!(c16_store, "c16_store.rs");
